@@ -400,10 +400,16 @@ theorem runPassDir_spec (p : PassT) (c : Ctx) (fuel : Nat) (h : WF c.seg) {c' : 
   split at e
   · cases e; exact h
   · simp only [] at e
-    refine runPass_spec p _ fuel ?_ e
-    split
-    · exact reverse_wf h _
-    · exact h
+    split at e
+    · cases e
+    · split at e
+      · cases e
+      · split at e
+        · cases e; exact h
+        · refine runPass_spec p _ fuel ?_ e
+          split
+          · exact reverse_wf h _
+          · exact h
 
 /-- **a run of passes keeps the stream** -/
 theorem runRange_spec (passes : Array PassT) (c : Ctx) (lo hi fuel : Nat) (h : WF c.seg) {c' : Ctx}
